@@ -45,6 +45,8 @@ func hKindSpec(k byte) (mode, data string) {
 		return "120000", "one"
 	case 'r':
 		return "100644", "one\r\n"
+	case 'e':
+		return "100644", "" // the empty file: size 0 is also what a stat-less index entry records
 	}
 	panic("hKindSpec: bad kind " + string(k))
 }
